@@ -67,6 +67,11 @@ def get_mask_with_key_joins(data, key_joins, subset_state, view=None):
     dataset, as it is assumed this has been tried first.
     """
 
+    def get_key_left(cid):
+        # If the view selects a single element, the value is not necessarily
+        # returned as a Numpy object (e.g. for columns with object dtype)
+        return np.asarray(data.get_data(cid, view=view))
+
     for other, (cid1, cid2) in key_joins.items():
 
         if getattr(other, '_recursing', False):
@@ -82,7 +87,7 @@ def get_mask_with_key_joins(data, key_joins, subset_state, view=None):
 
         if len(cid1) == 1 and len(cid2) == 1:
 
-            key_left = data.get_data(cid1[0], view=view)
+            key_left = get_key_left(cid1[0])
             key_right = other.get_data(cid2[0], view=mask_right)
             mask = np.isin(key_left.ravel(), key_right.ravel())
 
@@ -94,8 +99,8 @@ def get_mask_with_key_joins(data, key_joins, subset_state, view=None):
             key_right_all = []
 
             for cid1_i, cid2_i in zip(cid1, cid2):
-                key_left_i, key_right_i = _common_storage(data.get_data(cid1_i, view=view).ravel(),
-                                                         other.get_data(cid2_i, view=mask_right).ravel())
+                key_left_i, key_right_i = _common_storage(get_key_left(cid1_i).ravel(),
+                                                          other.get_data(cid2_i, view=mask_right).ravel())
                 key_left_all.append(key_left_i)
                 key_right_all.append(key_right_i)
 
@@ -104,27 +109,27 @@ def get_mask_with_key_joins(data, key_joins, subset_state, view=None):
 
             mask = np.isin(key_left_all, key_right_all)
 
-            return mask.reshape(data.get_data(cid1_i, view=view).shape)
+            return mask.reshape(get_key_left(cid1_i).shape)
 
         elif len(cid1) == 1:
 
-            key_left = data.get_data(cid1[0], view=view).ravel()
+            key_left = get_key_left(cid1[0]).ravel()
             mask = np.zeros_like(key_left, dtype=bool)
             for cid2_i in cid2:
                 key_right = other.get_data(cid2_i, view=mask_right).ravel()
                 mask |= np.isin(key_left, key_right)
 
-            return mask.reshape(data.get_data(cid1[0], view=view).shape)
+            return mask.reshape(get_key_left(cid1[0]).shape)
 
         elif len(cid2) == 1:
 
             key_right = other.get_data(cid2[0], view=mask_right).ravel()
-            mask = np.zeros_like(data.get_data(cid1[0], view=view).ravel(), dtype=bool)
+            mask = np.zeros_like(get_key_left(cid1[0]).ravel(), dtype=bool)
             for cid1_i in cid1:
-                key_left = data.get_data(cid1_i, view=view).ravel()
+                key_left = get_key_left(cid1_i).ravel()
                 mask |= np.isin(key_left, key_right)
 
-            return mask.reshape(data.get_data(cid1[0], view=view).shape)
+            return mask.reshape(get_key_left(cid1[0]).shape)
 
         else:
 
